@@ -50,6 +50,7 @@ def check(ctx, report):
     report.rule('C13.R2', 'no attr.ib default shares a mutable object between instances')
     report.rule('C13.R3', 'the parsed object does not alias the input buffer')
     vector_constructor(ctx, report)
+    returned_internals(ctx, report)
     # ---- R1
     for c in model.repo_classes():
         if c.is_subclass_of('builtins.Exception'):
@@ -246,3 +247,34 @@ def vector_constructor(ctx, report):
                        'a path through the vector constructor %s instead of a list created in the call: two vectors (a default and '
                        'every message built from it) then share one item list' % what)
             break
+
+
+def returned_internals(ctx, report):
+    """R4: an observer does not hand out the object's own mutable container (``return self._items``, ``return self.data`` of
+    a bytearray field): the caller mutating the result would change the object, i.e. calling the observer is not pure in
+    effect"""
+    model = ctx.model
+    report.rule('C13.R4', 'observers return copies, never the object\'s own mutable containers')
+    for c in model.repo_classes():
+        for name in OBSERVERS:
+            f = c.methods.get(name)
+            if f is None:
+                continue
+            report.count('C13.R4')
+            for n in ast.walk(f.node):
+                if not (isinstance(n, ast.Return) and isinstance(n.value, ast.Attribute) and isinstance(n.value.value, ast.Name) and n.value.value.id == 'self'):
+                    continue
+                attr_name = n.value.attr
+                fld = c.field(attr_name) if c.has_attrs() else None
+                texts = []
+                if fld is not None:
+                    for node in (fld.validator_node, fld.converter_node, fld.default_node):
+                        if node is not None:
+                            texts.append(ast.unparse(node))
+                blob = ' '.join(texts)
+                mutable = attr_name == '_items' or 'bytearray' in blob or 'deep_iterable' in blob or 'OrderedDict' in blob or \
+                    'instance_of(list)' in blob or 'instance_of(dict)' in blob
+                if mutable:
+                    report.touch(f)
+                    report.add('C13.R4', '%s@returns[self.%s]' % (f.construct, attr_name),
+                               'the observer returns the object\'s own mutable %s: a caller that edits the result edits the object' % attr_name)
